@@ -6,7 +6,15 @@ a literal number of times, recursion decreases a literal counter), never divide 
 or MIN by -1, and keep float arithmetic on the exact fragment (one operation on fresh
 small dyadic leaves), so that every program has a defined meaning in RotoSem.
 """
+import json
+
 import rotoast as A
+
+
+def json_dumps(x):
+    return json.dumps(x)
+
+
 from rotoast import INT_TYS, FLOAT_TYS, ilit, lit, var, un, binop, block, if_, let, host
 
 STRS = ["", "a", "roto", "héllo", "東京", "x{y}z", "line\nbreak", "\U0001F600!"]
@@ -83,6 +91,36 @@ class Gen:
     def emit_ok(self, ty):
         return isinstance(ty, str) and ty in INT_TYS + FLOAT_TYS + ["bool", "char", "str"]
 
+    # ---- named types, possibly generic: ["named", N] or ["named", N, [type arguments]]
+    def subst(self, t, targs):
+        if isinstance(t, list):
+            if t[0] == "tv":
+                return targs[t[1]]
+            if t[0] in ("opt", "list"):
+                return [t[0], self.subst(t[1], targs)]
+            if t[0] == "named" and len(t) > 2:
+                return ["named", t[1], [self.subst(x, targs) for x in t[2]]]
+        return t
+
+    def fields_of(self, ty):
+        d = self.types[ty[1]]
+        targs = ty[2] if len(ty) > 2 else []
+        return [(f, self.subst(ft, targs)) for f, ft in d["fs"]]
+
+    def variants_of(self, ty):
+        d = self.types[ty[1]]
+        targs = ty[2] if len(ty) > 2 else []
+        return [(v, [self.subst(t, targs) for t in ts]) for v, ts in d["vs"]]
+
+    def kind_of(self, ty):
+        return self.types[ty[1]]["k"]
+
+    def named_instance(self, name, depth):
+        d = self.types[name]
+        if not d.get("ps"):
+            return ["named", name]
+        return ["named", name, [self.random_ty(max(depth - 1, 0), ("scalar", "named0")) for _ in d["ps"]]]
+
     def is_plain(self, ty):
         """values comparable with == by structure: no floats, lists, tracked values inside"""
         if isinstance(ty, str):
@@ -91,10 +129,9 @@ class Gen:
             return self.is_plain(ty[1])
         if ty[0] == "list":
             return False
-        d = self.types[ty[1]]
-        if d["k"] == "record":
-            return all(self.is_plain(t) for _, t in d["fs"])
-        return all(self.is_plain(t) for _, ts in d["vs"] for t in ts)
+        if self.kind_of(ty) == "record":
+            return all(self.is_plain(t) for _, t in self.fields_of(ty))
+        return all(self.is_plain(t) for _, ts in self.variants_of(ty) for t in ts)
 
     def eq_spec_ty(self, ty):
         if isinstance(ty, str) and ty in INT_TYS + FLOAT_TYS + ["str", "char"]:
@@ -108,6 +145,8 @@ class Gen:
         if depth > 0:
             if self.typelist and "named" in allow:
                 choices += ["named"] * 2
+            elif "named0" in allow and any(not self.types[n].get("ps") for n in self.typelist):
+                choices += ["named0"]
             if self.has("opt") and "opt" in allow:
                 choices += ["opt"]
             if self.has("list") and "list" in allow:
@@ -120,7 +159,9 @@ class Gen:
         if c == "scalar":
             return self.r.choice(self.scalar_tys())
         if c == "named":
-            return ["named", self.r.choice(self.typelist)]
+            return self.named_instance(self.r.choice(self.typelist), depth)
+        if c == "named0":
+            return ["named", self.r.choice([n for n in self.typelist if not self.types[n].get("ps")])]
         if c == "opt":
             return ["opt", self.random_ty(depth - 1, ("scalar", "named"))]
         return ["list", self.r.choice([t for t in self.scalar_tys() if t not in FLOAT_TYS] + (["Tr", "Tr"] if self.has("tr") else []) or ["i32"])]
@@ -129,19 +170,37 @@ class Gen:
     def gen_types(self, n):
         for i in range(n):
             name = "T%d" % i
+            # some declarations are generic: type parameters A, B stand in field / payload positions
+            ps = []
+            if self.has("generic") and self.r.random() < 0.5:
+                ps = ["A", "B"][:self.r.randint(1, 2)]
+
+            def fty(allow):
+                if ps and self.r.random() < 0.5:
+                    tv = ["tv", self.r.randrange(len(ps))]
+                    return ["opt", tv] if self.r.random() < 0.2 else tv
+                return self.random_ty(1, allow)
             if self.has("enum") and self.r.random() < 0.45:
                 nv = self.r.randint(1, 3)
                 vs = []
                 for j in range(nv):
-                    ts = [self.random_ty(1, ("scalar", "named")) for _ in range(self.r.choice([0, 1, 1, 2]))]
+                    ts = [fty(("scalar", "named")) for _ in range(self.r.choice([0, 1, 1, 2]))]
                     vs.append(["V%d_%d" % (i, j), ts])
-                self.types[name] = {"k": "enum", "n": name, "vs": vs}
+                self.types[name] = {"k": "enum", "n": name, "ps": ps, "vs": vs}
             elif self.has("rec"):
                 nf = self.r.randint(1, 4)
-                fs = [["f%d" % j, self.random_ty(1, ("scalar", "named", "opt", "list"))] for j in range(nf)]
-                self.types[name] = {"k": "record", "n": name, "fs": fs}
+                fs = [["f%d" % j, fty(("scalar", "named", "opt", "list"))] for j in range(nf)]
+                self.types[name] = {"k": "record", "n": name, "ps": ps, "fs": fs}
             else:
                 continue
+            # every type parameter must be used (an unused parameter cannot be inferred from a literal)
+            used = json_dumps(self.types[name])
+            for k, _ in enumerate(ps):
+                if '["tv", %d]' % k not in used:
+                    if self.types[name]["k"] == "record":
+                        self.types[name]["fs"].append(["g%d" % k, ["tv", k]])
+                    else:
+                        self.types[name]["vs"].append(["W%d_%d" % (i, k), [["tv", k]]])
             self.typelist.append(name)
 
     # ------------------------------------------------------------ leaves
@@ -208,12 +267,11 @@ class Gen:
                 # an empty literal needs a context that fixes the element type
                 return {"k": "list", "es": [self.expr(ty[1], d - 1)]}
             return {"k": "list", "es": [self.expr(ty[1], d - 1) for _ in range(n)]}
-        decl = self.types[ty[1]]
-        if decl["k"] == "record":
-            fs = [[f, self.expr(ft, d - 1)] for f, ft in decl["fs"]]
+        if self.kind_of(ty) == "record":
+            fs = [[f, self.expr(ft, d - 1, True)] for f, ft in self.fields_of(ty)]
             return {"k": "rec", "name": ty[1] if r.random() < 0.7 else "", "fs": fs}
-        v, ts = r.choice(decl["vs"])
-        return {"k": "ctor", "en": ty[1], "v": v, "args": [self.expr(t, d - 1) for t in ts]}
+        v, ts = r.choice(self.variants_of(ty))
+        return {"k": "ctor", "en": ty[1], "v": v, "args": [self.expr(t, d - 1, True) for t in ts]}
 
     # ------------------------------------------------------------ expressions
     def maybe_emit(self, ty, e, p=0.3):
@@ -322,8 +380,8 @@ class Gen:
             # a record variable with a field of this type
             cands = []
             for (n, t) in self.all_vars():
-                if isinstance(t, list) and t[0] == "named" and self.types[t[1]]["k"] == "record":
-                    for fn_, ft in self.types[t[1]]["fs"]:
+                if isinstance(t, list) and t[0] == "named" and self.kind_of(t) == "record":
+                    for fn_, ft in self.fields_of(t):
                         if ft == ty:
                             cands.append((n, fn_))
             if not cands:
@@ -376,14 +434,14 @@ class Gen:
     def match_expr(self, ty, d):
         r = self.r
         cands = [(n, t) for (n, t) in self.all_vars()
-                 if isinstance(t, list) and (t[0] == "opt" or (t[0] == "named" and self.types[t[1]]["k"] == "enum"))]
+                 if isinstance(t, list) and (t[0] == "opt" or (t[0] == "named" and self.kind_of(t) == "enum"))]
         if not cands:
             return self.leaf(ty)
         n, t = r.choice(cands)
         if t[0] == "opt":
             variants = [["Some", [t[1]]], ["None", []]]
         else:
-            variants = self.types[t[1]]["vs"]
+            variants = self.variants_of(t)
         arms = []
         order = list(variants)
         r.shuffle(order)
@@ -579,13 +637,12 @@ class Gen:
                 {"v": "Some", "bs": [x], "g": [], "b": block(self.observe(var(x), ty[1], depth - 1) + [host("tick", "unit", self.tag(), [])])},
                 {"v": "None", "bs": [], "g": [], "b": block([host("tick", "unit", self.tag(), [])])}]})
             return out
-        decl = self.types[ty[1]]
-        if decl["k"] == "record":
-            for f, ft in decl["fs"]:
+        if self.kind_of(ty) == "record":
+            for f, ft in self.fields_of(ty):
                 out += self.observe({"k": "field", "e": e, "f": f}, ft, depth - 1)
             return out
         arms = []
-        for v, ts in decl["vs"]:
+        for v, ts in self.variants_of(ty):
             bs = [self.fresh("m") for _ in ts]
             body = []
             for b, bt in zip(bs, ts):
@@ -618,10 +675,9 @@ class Gen:
         out = []
         if depth == 0 or not (isinstance(ty, list) and ty[0] == "named"):
             return out
-        decl = self.types[ty[1]]
-        if decl["k"] != "record":
+        if self.kind_of(ty) != "record":
             return out
-        for f, ft in decl["fs"]:
+        for f, ft in self.fields_of(ty):
             out.append((prefix + [f], ft))
             out += self.field_paths(ft, prefix + [f], depth - 1)
         return out
